@@ -34,8 +34,9 @@ def cases(draw, tier):
         # compressed level(s) followed by dense ones: compute then writes whole dense blocks at a position that may
         # not be committed (the 'scratch' block after the last stored position)
         modes, ordering = C.fmt_parts(c["formats"]["o"])
-        k = draw(st.integers(1, len(modes) - 1))
-        c["formats"] = dict(c["formats"], o=C.fmt_text(("s",) * k + ("d",) * (len(modes) - k), ordering))
+        shape = draw(st.sampled_from(["sd", "sds", "ssd", "dsd", "sdd", "dss"]))
+        m2 = tuple((shape * 2)[: len(modes)])
+        c["formats"] = dict(c["formats"], o=C.fmt_text(m2, ordering))
     n = draw(st.integers(1, 3))
     revs = []
     for _ in range(n):
